@@ -39,7 +39,7 @@ M = [
     ("c05-int-values", "C05", P + "lisp_parsers/problem_parser.py", "            assigned_value = float(expression[2])", "            assigned_value = float(int(float(expression[2])))"),
     ("c06-subtype-one-level", "C06", P + "models/pddl_type.py", "        return PDDLType.is_sub_type_aux(my_type.parent, other_type)", "        return my_type.parent.name == other_type.name"),
     ("c06-grouped-children-lose-parent", "C06", P + "lisp_parsers/domain_parser.py", "            for descendant_type_name in same_types_objects:\n                parent_names[descendant_type_name] = parent_name", "            for descendant_type_name in same_types_objects[-1:]:\n                parent_names[descendant_type_name] = parent_name\n            for descendant_type_name in same_types_objects[:-1]:\n                parent_names.setdefault(descendant_type_name, \"object\")"),
-    ("c07-copy-shares-fluents", "C07", P + "models/pddl_state.py", "            fluent_name: fluent.copy()\n            for fluent_name, fluent in self.state_fluents.items()", "            fluent_name: fluent\n            for fluent_name, fluent in self.state_fluents.items()"),
+    ("c14-copy-shares-fluents", "C14", P + "models/pddl_state.py", "            fluent_name: fluent.copy()\n            for fluent_name, fluent in self.state_fluents.items()", "            fluent_name: fluent\n            for fluent_name, fluent in self.state_fluents.items()"),
     ("c07-successor-stores-operator-function", "C07", P + "models/grounded_effect.py", "= new_value.copy()", "= new_value"),
     ("c07-default-types-aliased", "C07", P + "models/pddl_domain.py", "self.types = dict(DEFAULT_TYPES)", "self.types = DEFAULT_TYPES"),
     ("c08-negative-effect-printed-positive", "C08", P + "models/pddl_action.py", "sorted([effect.untyped_representation for effect in self.discrete_effects])", "sorted([effect.untyped_representation.replace('(not ', '')[:-1] if not effect.is_positive else effect.untyped_representation for effect in self.discrete_effects])"),
